@@ -113,9 +113,15 @@ func parseKey(tok string) (interface{}, bool) {
 	return nil, false
 }
 
+// rw < 0: no WithRwRatio option (the package default applies)
 func newWorld(variant string, rw, prime int) *world {
 	var m semap.SemMapper
-	opts := []semap.Option{semap.WithRwRatio(rw)}
+	var opts []semap.Option
+	if rw >= 0 {
+		opts = append(opts, semap.WithRwRatio(rw))
+	} else {
+		rw = semap.DefaultRWRatio
+	}
 	if prime > 0 {
 		opts = append(opts, semap.WithPrime(uint64(prime)))
 	}
@@ -446,6 +452,9 @@ func runCase(c corr.Case) (res corr.Result) {
 					return "bad-op"
 				}
 				rw, ok1 := natCanon(f[2], 6)
+				if f[2] == "d" { // the package default
+					rw, ok1 = -1, true
+				}
 				prime, ok2 := natCanon(f[3], 4)
 				if !ok1 || !ok2 || rw == 0 {
 					return "bad-op"
